@@ -1144,6 +1144,11 @@ class Model:
                     if not len(d) == 2:
                         continue
 
+                    # Differently shaped symbols (e.g. a loop over part of an
+                    # array) cannot be substituted for one another
+                    if d[0].shape != d[1].shape:
+                        continue
+
                     # Check with substitute, which is a more expensive operation
                     if ca.substitute(eq, d[0], d[1]).is_zero():
                         return d, False
